@@ -210,6 +210,11 @@ func Live() int { return 0 }
 // the process as seen from inside one goroutine).
 func Die() { runtime.Goexit() }
 
+// Exit ends the simulated process: under the engine every goroutine except the
+// harness's main one stops at once; natively the calling goroutine exits and
+// the others exit at their next environment call.
+func Exit() { runtime.Goexit() }
+
 func IsMain() bool { return gid() == mainGID }
 
 func Go(n string, f func()) { go f() }
@@ -281,3 +286,6 @@ func RunReplay(f func()) (panicked interface{}) {
 	f()
 	return nil
 }
+
+// DebugErr prints an error (debugging aid; the engine shows opaque error chains).
+func DebugErr(tag string, err error) { fmt.Fprintln(os.Stderr, "DEBUG", tag, err) }
